@@ -18,7 +18,7 @@ integer ns.  The tree is the replay of recorded `query_radius` answers, looked u
   collocate P S MI RBITS START STOP MF THR
         -> none | error E | ok P=ids S=ids PL=line.cell,.. SL=.. pairs=a:b,.. iv=..,.. d=bits,..
            each followed by " st=IWP:BUILT"
-        (START/STOP = integer ns or "-")
+        (START/STOP = integer ns or "-"; MI = "-" is max_interval=None, the spatial-only search)
   binned MF MI RBITS P S       -> error E | ok a:b:bits ... st=IWP:BUILT
         P, S = code:time,code:time,... (time-sorted NaN-free points; uses the current cut)
   unflat NPOS K                -> l c
@@ -140,6 +140,18 @@ def step (d : DState) (line : String) : DState × String :=
     match lines.mapM parseLine with
     | some ls => ({ d with datasets := (name, ls) :: d.datasets.filter (·.1 ≠ name) }, "ok")
     | none => (d, "bad-op")
+  | ["collocate", p, s, "-", rb, _, _, mf, _] =>          -- max_interval=None: spatial search only
+    match d.datasets.find? (·.1 == p), d.datasets.find? (·.1 == s), rb.toNat?, mf.toNat? with
+    | some p, some s, some rb, some mf =>
+      let r := Float.ofBits rb.toUInt64
+      let tn : Tuning := { mf := mf }
+      let (st', out) := collocateSpatial (mkTree d) (mkShuf d) tn d.st p.2 s.2 r
+      let txt := match out with
+        | .error e => "error " ++ errStr e
+        | .ok none => "none"
+        | .ok (some res) => showResult res
+      ({ d with st := st' }, txt ++ stStr st')
+    | _, _, _, _ => (d, "bad-op")
   | ["collocate", p, s, mi, rb, a, b, mf, thr] =>
     match d.datasets.find? (·.1 == p), d.datasets.find? (·.1 == s), mi.toInt?, rb.toNat?,
           parseOptInt a, parseOptInt b, mf.toNat?, thr.toNat? with
